@@ -171,8 +171,8 @@ Print Assumptions C21_periodic_map.
 Example C21_ext_nonvacuous :
   let cf := [(0, 0, -1); (1, 0, 1); (3, 0, -1); (5, 0, 1);
              (1, 1, -1); (2, 1, 1); (4, 1, -1); (6, 1, 1)] in
-  Permutation [2; 0; 1]%nat (seq 0 3) /\
-  signs_cells_perm cf [6; 0; 6] [2; 0; 1]%nat = Ok ([1; -1; 1], [1; 0; 1]) /\
+  Permutation [1; 2; 0]%nat (seq 0 3) /\
+  signs_cells_perm cf [6; 0; 6] [1; 2; 0]%nat = Ok ([1; -1; 1], [1; 0; 1]) /\
   signs_cells_idx 7 cf [-1; 0; 3] = Ok2 ([1; -1; -1], [1; 0; 0]) /\
   signs_cells_idx 7 cf [0; 7] = Err2 IndexErr2 /\
   signs_cells_idx 7 cf [0; -6] = Err2 ValueErr2 /\
@@ -184,9 +184,13 @@ Example C21_ext_nonvacuous :
 Proof.
   cbn zeta. split.
   - apply Permutation_sym. exact (Permutation_cons_append [1; 2]%nat 0%nat).
-  - repeat split; try (vm_compute; reflexivity).
-    + intros H. cbn in H. intuition lia.
-    + intros (_ & _ & H). specialize (H 7). cbn in H. lia.
+  - assert (pm_valid 7 [[0]; [2]]) as V1.
+    { split; [reflexivity|]. split; [discriminate|]. intros i Hi. cbn in Hi. lia. }
+    assert (~ pm_valid 7 [[0]; [7]]) as V2.
+    { intros (_ & _ & H). specialize (H 7). cbn in H. lia. }
+    split; [vm_compute; reflexivity|]. split; [vm_compute; reflexivity|].
+    split; [vm_compute; reflexivity|]. split; [vm_compute; reflexivity|].
+    split; [exact V1|]. split; [vm_compute; reflexivity|]. split; [exact V2|]. vm_compute. reflexivity.
 Qed.
 
 (* Non-vacuity: the incidence of pp.CartGrid([2, 1]) (7 faces, 2 cells) is well-formed;
